@@ -58,8 +58,77 @@ let ctx_info = function
   | "NEF" -> (false, false, false, 2, 4, "\n", true)
   | c -> failwith ("bad ctx " ^ c)
 
+(* ---- whole documents: W / Z lm=<0|1> <tree> <hex text> np=.. o=<hex>:<abc>;.. ---- *)
+let parse_tree s : data =
+  let n = String.length s in
+  let pos = ref 0 in
+  let peek () = if !pos < n then s.[!pos] else '\000' in
+  let upto stops =
+    let st = !pos in
+    while !pos < n && not (String.contains stops s.[!pos]) do incr pos done;
+    String.sub s st (!pos - st) in
+  let rec node () =
+    match peek () with
+    | '[' ->
+      incr pos;
+      let items = ref [] in
+      while peek () <> ']' do
+        items := node () :: !items;
+        if peek () = ',' then incr pos else failwith "expected ,"
+      done;
+      incr pos; DSeq (List.rev !items)
+    | '{' ->
+      incr pos;
+      let items = ref [] in
+      while peek () <> '}' do
+        let k = upto "=" in
+        incr pos;
+        let v = node () in
+        items := (str_of_string (unhex k), v) :: !items;
+        if peek () = ',' then incr pos else failwith "expected ,"
+      done;
+      incr pos; DMap (List.rev !items)
+    | 'n' -> incr pos; DNull
+    | c ->
+      pos := !pos + 2;
+      let body = upto ",]}" in
+      (match c with
+       | 's' -> DStr (str_of_string (unhex body))
+       | 'y' -> DBytes (str_of_string (unhex body))
+       | 'i' -> DInt (str_of_string body)
+       | 'f' -> DFloat (str_of_string body)
+       | 'b' -> DBool (body = "1")
+       | _ -> failwith "bad scalar") in
+  let d = node () in
+  if !pos <> n then failwith "trailing"; d
+
+let rec print_tree (d : data) =
+  match d with
+  | DNull -> "n"
+  | DBool b -> if b then "b:1" else "b:0"
+  | DInt t -> "i:" ^ string_of_str t
+  | DFloat t -> "f:" ^ string_of_str t
+  | DStr s -> "s:" ^ hex (string_of_str s)
+  | DBytes b -> "y:" ^ hex (string_of_str b)
+  | DSeq l -> "[" ^ String.concat "" (List.map (fun e -> print_tree e ^ ",") l) ^ "]"
+  | DMap l -> "{" ^ String.concat "" (List.map (fun (k, v) -> hex (string_of_str k) ^ "=" ^ print_tree v ^ ",") l) ^ "}"
+
+let handle_doc stream lm tree text np o =
+  let np = after_eq np and o = after_eq o and lm = after_eq lm in
+  let npl = if np = "-" then [] else List.map (fun h -> n_of_int (int_of_string ("0x" ^ h))) (String.split_on_char ',' np) in
+  let tbl = if o = "" then [] else
+      List.map (fun e ->
+          let i = String.index e ':' in
+          let h = String.sub e 0 i and f = String.sub e (i + 1) 3 in
+          (str_of_string (unhex h), (f.[0] = '1', (f.[1] = '1', f.[2] = '1')))) (String.split_on_char ';' o) in
+  let d = parse_tree tree in
+  let ((em, rd), (risky, unmod)) = c11_doc npl tbl (lm = "1") stream d (str_of_string (unhex text)) in
+  Printf.sprintf "emit=%s read=%s risky=%d unmod=%d" (hex (string_of_str em))
+    (match rd with None -> "NONE" | Some v -> print_tree v) (if risky then 1 else 0) (if unmod then 1 else 0)
+
 let handle line =
   match words line with
+  | ("W" | "Z" as k) :: lm :: tree :: text :: np :: o :: [] -> handle_doc (k = "Z") lm tree text np o
   | "P" :: ctx :: hs :: ht :: np :: f :: m :: [] ->
     let (is_key, col0, root, p, n, suffix, followed) = ctx_info ctx in
     let s = str_of_string (unhex hs) and text = str_of_string (unhex ht) in
